@@ -374,18 +374,18 @@ section offsetFromSpaces
 returns the array offset `k` for one axis, then `k ≤ |n_ran - n_dom|` and the block that
 `resize_array` copies with this offset sits on coinciding grid points: for an extension, grid
 point `k` of the range is the first grid point of the domain; for a restriction the range starts
-at grid point `k` of the domain; an axis of unchanged length has offset 0.  (Ranges shifted to the
+at grid point `k` of the domain; in an axis of unchanged length the grids coincide and the offset is 0.  (Ranges shifted to the
 other side, shifted too far, or by a non-multiple of the cell side are refused — before repo fix
 C16-F5 the absolute value of the shift was taken and such ranges were accepted.) -/
 theorem C16.offset_from_spaces_aligned (dom ran : Axis Rat) (k : Nat) (hc : dom.cell ≠ 0)
     (h : offsetFromAxes dom ran = .ok k) :
-    (dom.n = ran.n → k = 0) ∧
+    (dom.n = ran.n → k = 0 ∧ ran.gridMin = dom.gridMin) ∧
     (dom.n < ran.n → k ≤ ran.n - dom.n ∧ ran.gridMin + (k : Rat) * dom.cell = dom.gridMin) ∧
     (ran.n < dom.n → k ≤ dom.n - ran.n ∧ ran.gridMin = dom.gridMin + (k : Rat) * dom.cell) := by
   unfold offsetFromAxes at h
-  split_ifs at h with h0 h1 h2
+  split_ifs at h with h0 hg h1 h2
   · simp only [Except.ok.injEq] at h
-    exact ⟨fun _ => h.symm, fun hh => by omega, fun hh => by omega⟩
+    exact ⟨fun _ => ⟨h.symm, hg.symm⟩, fun hh => by omega, fun hh => by omega⟩
   · simp only [Except.ok.injEq] at h
     simp only [ne_eq, not_not] at h1
     have hq : ((shiftCells dom ran).num : Rat) = shiftCells dom ran :=
@@ -409,7 +409,9 @@ theorem C16.offset_from_spaces_roundtrip (a : Axis Rat) (nNew : Nat) (off : Opti
   have hg := C16.range_grid_min a nNew off bl' br' hn hN
   have hnn : (resizeAxis a nNew off bl' br').n = nNew := rfl
   by_cases h0 : a.n = nNew
-  · simp [offsetFromAxes, hnn, h0, numLR]
+  · have : (numLR a.n nNew off).1 = 0 := by simp [numLR, h0]
+    rw [this] at hg
+    simp [offsetFromAxes, hnn, h0, numLR, hg]
   · -- sign facts about num_l
     have hs : (if nNew > a.n then (1 : Int) else -1) * (numLR a.n nNew off).1 =
         ((numLR a.n nNew off).1.natAbs : Int) ∧
